@@ -124,6 +124,7 @@ def evaluate_decode_length(f):
         headers.append((bytes([0x80 | k]) + n.to_bytes(k, 'big'), n))            # minimal long form (also for n <= 127: a legal BER form)
         headers.append((bytes([0x80 | (k + 1)]) + n.to_bytes(k + 1, 'big'), n))    # non-minimal long form
         headers.append((bytes([0x84]) + n.to_bytes(4, 'big'), n))
+        headers.append((bytes([0x89]) + n.to_bytes(9, 'big'), n))                    # BER puts no bound on the number of length octets
     for header, n in headers:
         full = header + bytes(n)
         cases = [(full, (n, len(header))), (full + b'\x00\x01', (n, len(header)))]
@@ -147,4 +148,49 @@ def evaluate_decode_length(f):
                 bad = bad or 'decode_length(%s, 0) gives %s, expected %s (length octets %s announce %d contents octets)' % (data.hex() or "b''", got, want, header.hex(), n)
             else:
                 n_ok += 1
+    # the indefinite form: (None, offset behind the 0x80 octet) where it is allowed, the library's decode error where it is not
+    if len(pn) > 2:
+        for enforce, want in ((False, (None, 1)), (True, 'DecodeError')):
+            try:
+                got, _e = evalexpr.run_function(f, {pn[0]: b'\x80\x02\x01\x00\x00\x00', pn[1]: 0, pn[2]: enforce})
+                got = tuple(got) if isinstance(got, (tuple, list)) else got
+            except evalexpr.Raised as e:
+                got = e.name
+            except (evalexpr.Unsupported, KeyError, TypeError) as e:
+                n_und += 1
+                und = und or 'decode_length(80.., enforce_definite=%s): %s' % (enforce, e)
+                continue
+            if got != want:
+                bad = bad or 'decode_length(80 02 01 00 00 00, 0, enforce_definite=%s) gives %s, expected %s' % (enforce, got, want)
+            else:
+                n_ok += 1
     return n_ok, n_und, bad, und
+
+
+def evaluate_is_end_of_data(f):
+    """Bounded evaluation of ber.is_end_of_data(data, offset, end_offset): with a definite end, the end is reached iff offset >= end_offset and the offset is
+    returned unchanged; with end_offset None (indefinite form) the end is the end-of-contents octets 00 00, which are consumed (offset + 2).
+    -> (cases that held, undecided, first failure or None, first undecided reason or None)"""
+    from . import evalexpr
+    pn = flow.param_names(f)
+    data = b'\x02\x01\x05\x00\x00\x04\x00'
+    cases = [((data, 0, 3), (False, 0)), ((data, 3, 3), (True, 3)), ((data, 4, 3), (True, 4)), ((data, 2, 7), (False, 2)),
+             ((data, 0, None), (False, 0)), ((data, 3, None), (True, 5)), ((data, 5, None), (False, 5)), ((data, 4, None), (False, 4))]
+    n_ok = n_und = 0
+    bad = und = None
+    for args, want in cases:
+        try:
+            got, _e = evalexpr.run_function(f, dict(zip(pn, args)))
+            got = (bool(got[0]), got[1]) if isinstance(got, (tuple, list)) and len(got) == 2 else got
+        except evalexpr.Raised as e:
+            got = e.name
+        except (evalexpr.Unsupported, KeyError, TypeError) as e:
+            n_und += 1
+            und = und or 'is_end_of_data%s: %s' % (args[1:], e)
+            continue
+        if got != want:
+            bad = bad or 'is_end_of_data(%s, %s, %s) gives %s, expected %s' % (args[0].hex(), args[1], args[2], got, want)
+        else:
+            n_ok += 1
+    return n_ok, n_und, bad, und
+
